@@ -225,6 +225,21 @@ def b_variant(cfg, kind, rnd):
                                    "app_executions": {"high": 3, "medium": 2, "low": 1}}
     elif kind == "other-seed":
         c["game"]["seed"] = (c["game"].get("seed") or 0) + 17
+    elif kind == "obs-options":
+        # B observes the same network through differently parameterised observations (other encoding lists, slot counts)
+        for a in c["agents"]:
+            for comp in ((a.get("observation_space") or {}).get("options") or {}).get("components", []):
+                o = comp.get("options") or {}
+                if comp.get("type") == "nodes":
+                    o["ip_list"] = list(reversed(o.get("ip_list") or []))[:2] + ["10.9.9.9"]
+                    o["port_list"] = ["SSH", "DNS"]
+                    o["protocol_list"] = ["UDP"]
+                    o["wildcard_list"] = ["0.0.255.255"]
+                    o["num_rules"] = 4
+                    o["num_ports"] = 1
+                    o["num_services"], o["num_applications"], o["num_folders"], o["num_files"], o["num_nics"] = 4, 1, 3, 3, 3
+                    o["include_nmne"] = not o.get("include_nmne", False)
+                    o["monitored_traffic"] = {"udp": ["DNS"]}
     return c
 
 
@@ -343,6 +358,35 @@ def case_pair(spec, cov, out):
         out.append(viol(mech, msg, {"gen_seed": spec["gen_seed"], "b_kind": spec["b_kind"], "interleaving": inter, "acts": acts}))
 
 
+def case_pair_fresh(spec, cov, out):
+    """(b') the same comparison with each arm in its OWN fresh interpreter: in arm 2 an environment B is the first thing the process
+    ever builds, so process-level state that the FIRST game in a process initialises for good is exposed (the in-process pair cases
+    always build A alone first)."""
+    from pv import pairchild
+
+    rnd = random.Random(spec["seed"])
+    cfg, meta = gen.gen(spec["gen_seed"], spec.get("family"), dict(spec.get("knobs") or {}))
+    cfg = envdrv.quiet(cfg)
+    n = len(meta["actions"])
+    acts = [0 if rnd.random() < 0.3 else rnd.randrange(n) for _ in range(spec["steps"])]
+    cfg_b = b_variant(cfg, spec["b_kind"], rnd)
+    inter = spec["interleaving"]
+    a1 = pairchild.run_child(cfg, None, inter, acts, spec["seed"])
+    a2 = pairchild.run_child(cfg, cfg_b, inter, acts, spec["seed"])
+    for nm, r in (("A alone", a1), ("B then A", a2)):
+        if "error" in r:
+            return {"harness_error": f"{nm} child failed: {r['error'][-300:]}"}
+    cov.inc("fresh_process_pairs")
+    cov.hit("option_deltas_fresh", spec["b_kind"])
+    cov.inc("steps_compared", len(a1["trace"]))
+    d = diff_traces(a1["trace"], a2["trace"])
+    if d:
+        leaf = leaf_of(d)
+        out.append(viol(f"first-built-instance-leaks-into-later-one/{spec['b_kind']}/{leaf}", f"A's trajectory in a process where B ({spec['b_kind']}) was built, used and closed "
+                        f"before A differs from A's trajectory in a process of its own at step {d[0]} ({d[1]}: {str(d[2])[:300]})",
+                        {"gen_seed": spec["gen_seed"], "b_kind": spec["b_kind"], "interleaving": inter, "acts": acts}))
+
+
 # ------------------------------------------------------------------------------------------------ (c) identity leak
 def case_identity(spec, cov, out):
     rnd = random.Random(spec["seed"])
@@ -369,7 +413,7 @@ def case_identity(spec, cov, out):
             return
 
 
-RUN = {"used_fresh": case_used_fresh, "pair": case_pair, "identity": case_identity, "schedule_wrap": case_schedule_wrap}
+RUN = {"used_fresh": case_used_fresh, "pair": case_pair, "identity": case_identity, "schedule_wrap": case_schedule_wrap, "pair_fresh": case_pair_fresh}
 
 
 class Check:
@@ -410,7 +454,7 @@ class Check:
             sd = seed * 1000 + 300 + g
             specs.append({"name": f"wrap-genfolder-{sd}", "kind": "schedule_wrap", "src": ["genfolder", {"seed": sd, "family": ["routed", "dmz", "lan"][g % 3], "entries": 2 + g % 2}],
                           "seed": sd, "steps": 24 if q else 50, "extra": 3})
-        kinds = ["equal", "nmne-flip", "io-on", "thresholds", "other-seed"]
+        kinds = ["equal", "nmne-flip", "io-on", "thresholds", "other-seed", "obs-options"]
         j = 0
         for inter in INTERLEAVINGS:
             for bk in kinds:
@@ -427,6 +471,11 @@ class Check:
             specs.append({"name": f"pair-finished-B-nmne-{g}", "kind": "pair", "gen_seed": seed * 1000 + 150 + g, "seed": seed * 100 + j,
                           "interleaving": "B.used-and-closed-before-A.init", "b_kind": "nmne-flip", "steps": 30 if q else 60,
                           "knobs": {"include_nmne": True, "capture_nmne": False, "p_random_agent": 0.0}, "family": ["routed", "lan", "dmz"][g % 3]})
+        for g, bk in enumerate(["obs-options", "thresholds", "equal", "io-on"] if q else ["obs-options", "thresholds", "equal", "io-on", "obs-options", "nmne-flip", "other-seed", "obs-options"]):
+            j += 1
+            specs.append({"name": f"pair-fresh-{bk}-{g}", "kind": "pair_fresh", "gen_seed": seed * 1000 + 170 + g, "seed": seed * 100 + j,
+                          "interleaving": "B.used-and-closed-before-A.init", "b_kind": bk, "steps": 24 if q else 60,
+                          "knobs": {"include_nmne": True, "capture_nmne": True, "p_random_agent": 0.0}, "family": ["routed", "dmz", "routed", "lan"][g % 4]})
         for i, s in enumerate([["shipped", "data_manipulation.yaml"], ["gen", {"seed": seed * 1000 + 7}], ["gen", {"seed": seed * 1000 + 8}],
                                ["folder", "mini_scenario_with_simulation_variation"]]):
             specs.append({"name": f"identity-{i}", "kind": "identity", "src": s, "seed": seed * 10 + i, "episodes": 2 if q else 4, "steps": 12 if q else 40})
